@@ -10,9 +10,7 @@ from .core import BuildLock, log
 def build(o, need_driver=True):
     ok = True
     with BuildLock():
-        okr, outr = core.regenerate()
-        if not okr:
-            o.obligation_broken("translator tools/rs2v.py (tie to /repo sources)", outr)
+        core.regen_for(o, {"Consts.v", "Kinds.v", "ConvConsts.v"})
         okc, outc, _ = core.cargo_build(["codec"])
         if not okc:
             o.obligation_broken("cargo build of the codec harness against /repo", outc)
